@@ -99,6 +99,7 @@ S_none == {<<>>}
 E_few  == {<<>>, <<48>>, <<49>>, <<48, 49>>}                  \* absent, "0", "1", "01"
 E_two  == {<<>>, <<48>>}
 R_few  == {<<>>, <<48>>, <<49>>, <<126>>}                     \* absent, "0", "1", "~"
+R_three == {<<>>, <<48>>, <<126>>}                          \* absent, "0", "~"
 R_more == {<<>>, <<48>>, <<48, 48>>, <<49>>, <<126>>, <<97>>} \* absent, "0", "00", "1", "~", "a"
 R_two  == {<<>>, <<48>>}
 
